@@ -165,6 +165,23 @@ def case(spec, log):
                 elif how == 'exit-exc':
                     e = ValueError('body failed')
                     r = bounded('exit', lambda: p.__exit__(ValueError, e, None), 120)
+                elif how == 'close-interrupted':
+                    # close() is interrupted from outside (Ctrl-C style) while it waits for a worker; the caller reacts with terminate()
+                    # (a real SIGINT: only the main thread's blocking calls are interruptible, and that is where close() runs here)
+                    box = {}
+                    signal.signal(signal.SIGINT, signal.default_int_handler)
+                    timer = threading.Timer(0.3, lambda: os.kill(os.getpid(), signal.SIGINT))
+                    timer.start()
+                    try:
+                        p.close()
+                        box['close'] = 'returned'
+                    except KeyboardInterrupt:
+                        box['close'] = 'raised:KeyboardInterrupt'
+                    except BaseException as e:  # noqa
+                        box['close'] = 'raised:' + type(e).__name__
+                    timer.cancel()
+                    log.ev('close_interrupted', outcome=box.get('close', 'still-running'))
+                    r = bounded('exit', lambda: p.terminate(), 120)
                 elif how == 'close':
                     r = bounded('exit', lambda: p.close(), 120)
                 else:
@@ -284,6 +301,8 @@ def judge(chk, spec, res):
         elif e.get('abort'):
             if e['outcome'] == 'returned':
                 chk.count('abort_not_reached')
+            elif e['outcome'] == 'raised:PoolError':
+                chk.count('abort_not_reached')       # every worker had died before the callback got its chance
             elif e['outcome'] != 'raised:UserAbort':
                 rp.append('aborted-run-%s' % e['outcome'])
             else:
@@ -343,7 +362,7 @@ def run(tier):
     thorough = tier == 'thorough'
     chk = Check('C09', 'exploration', tier,
                 'seeded histories (<= ~8 operations) over {add_worker(thread/process/remote), add_worker with refused registration, attach, run(n inputs, poison, extra pending), restart_workers, runs left through an exception of the user callback with results outstanding, SIGKILL a worker, stuck worker, worker that dies of its input while its child process lingers, '
-                'leave by __exit__ / __exit__ with exception / close / terminate} x close_timeout {0.2, 1} x force {None, True}, each in its own session; distinct non-trivial = distinct histories')
+                'leave by __exit__ / __exit__ with exception / close / terminate / close interrupted by an asynchronous exception followed by terminate} x close_timeout {0.2, 1} x force {None, True}, each in its own session; distinct non-trivial = distinct histories')
     r = rng('c09')
     jobs = [gen_history(r) for _ in range(400 if thorough else 90)]
     # a worker that dies of its input while its child process lingers (a non-daemon thread left behind by the target)
@@ -355,6 +374,12 @@ def run(tier):
                     continue
                 jobs.append(dict(ops=[['add', k] for k in kinds] + [['run', 5, [2], 0, [2]]] + tail + [['leave', leave]], close_timeout=r.choice([0.2, 1]), force=r.choice([None, True]) if 'THREAD' not in kinds else None))
     jobs = [j for j in jobs if j]
+    # close() interrupted from outside while it waits for a worker that does not finish, then terminate()
+    # (process workers only: a remote worker's control conversation can be cut in the middle by the aborted clean-up thread,
+    #  after which a later terminate() may not return at all - outside the statement, which speaks about calls that return)
+    for kinds in (['PROCESS'], ['PROCESS', 'PROCESS'], ['PROCESS', 'THREAD']):
+        for ct in (1, 3):
+            jobs.append(dict(ops=[['add', k] for k in kinds] + [['run', 3, [], 0], ['stick', 0], ['leave', 'close-interrupted']], close_timeout=ct, force=None))
     # a run left through an exception of the user's callback with results outstanding, then the pool is left / used again
     for kinds in (['PROCESS', 'REMOTE', 'THREAD'], ['PROCESS', 'PROCESS'], ['REMOTE']):
         for leave in ('exit', 'exit-exc', 'close', 'terminate'):
